@@ -400,7 +400,177 @@ def c16(res, tier, deadline):
                                                  for x in res.bounds if "distinct_outcomes" in x["counters"]] or [0])
 
 
+# --------------------------------------------------------------------------
+# E5 progx: program families compiled against /repo/include
+
+E5DIR = os.path.join(C.VERIF, "e5")
+
+
+def _e5_key():
+    return C.tree_hash([E5DIR], "e5")
+
+
+def _compile_variant(src, name, defs, opt="-O0", timeout=3000, extra=()):
+    d = C.build_dir(_e5_key())
+    out = os.path.join(d, name)
+    if os.path.exists(out):
+        return out, ""
+    cmd = [small.CXX, "-std=c++17", opt, "-w", "-D" + C.GUARD, "-I" + C.INCLUDE, "-I" + E5DIR] + \
+        ["-D" + x for x in defs] + list(extra) + [os.path.join(E5DIR, src), "-o", out + ".tmp"]
+    try:
+        rc, so, se = C.run_cmd(cmd, timeout=timeout)
+    except Exception as e:
+        return None, "timeout: %s" % e
+    if rc:
+        return None, se[-2500:]
+    os.replace(out + ".tmp", out)
+    return out, ""
+
+
+def _run_family(res, src, variants, compile_failure_is_violation=False, run_timeout=600):
+    """variants: list of (name, defs, description). Compiles and runs them all
+    on the pool; returns (cands, samples, summaries)"""
+    cands, samples, sums = [], [], []
+
+    def one(v):
+        name, defs, desc = v
+        binary, err = _compile_variant(src, name, defs)
+        if not binary:
+            return v, None, err, 0
+        rc, so, se, dt = small.run(binary, [], timeout=run_timeout)
+        return v, (rc, so, se), "", dt
+
+    with cf.ThreadPoolExecutor(max_workers=C.NCPU) as ex:
+        for v, r, err, dt in ex.map(one, variants):
+            name, defs, desc = v
+            if r is None:
+                if compile_failure_is_violation:
+                    cands.append({"case": desc, "kind": "does_not_compile", "detail": err[-800:],
+                                  "variant": [name, defs]})
+                else:
+                    res.harness_errors.append("program %s does not compile against %s:\n%s" % (desc, C.INCLUDE, err))
+                continue
+            rc, so, se = r
+            c, s, summ = small.parse(so)
+            for x in c:
+                x["variant"] = [name, defs]
+            if rc != 0 or summ is None:
+                cands.append({"case": desc, "kind": "crash", "variant": [name, defs],
+                              "detail": "program ended with %s: %s" % (small.sig_name(rc), (se or so)[-300:])})
+            else:
+                summ["_variant"] = desc
+                summ["_wall_s"] = round(dt, 2)
+                sums.append(summ)
+            cands += c
+            samples += s
+    C.prune_build({_e5_key()})
+    return cands, samples, sums
+
+
+def _triage_family(res, src, cands):
+    known = C.load_known()
+    seen = set()
+    for c in cands:
+        c["engine"] = "E5"
+        c["src"] = src
+        k = C.match_known(known, res.prop, c)
+        if k is not None:
+            res.known_hits.setdefault(k["id"], (k, c))
+            continue
+        key_ = (c["case"], c.get("kind"))
+        if key_ in seen or len(res.confirmed) >= 25:
+            continue
+        seen.add(key_)
+        # replay: the program is deterministic; run it again and look for the
+        # same candidate line
+        name, defs = c["variant"]
+        binary, err = _compile_variant(src, name, defs)
+        if not binary:
+            if c.get("kind") == "does_not_compile":
+                res.confirmed.append(c)
+            continue
+        rc, so, se, dt = small.run(binary, [], timeout=600)
+        again = [x for x in small.parse(so)[0] if x["case"] == c["case"]]
+        if again or rc != 0:
+            res.confirmed.append(c)
+        else:
+            res.harness_errors.append("candidate did not reproduce: %s :: %s" % (c["case"], c["detail"][:200]))
+
+
+def _small_shapes():
+    out = []
+    for a in range(1, 7):
+        for b in range(0, 7):
+            for c_ in range(0, 7):
+                if b == 0 and c_ != 0:
+                    continue
+                n = a * (b or 1) * (c_ or 1)
+                if n <= 6 and max(a, b, c_) <= 3:
+                    out.append((a, b, c_))
+    return out
+
+
+@check("C20")
+def c20(res, tier, deadline):
+    res.rule = ("program family over the public templates.hpp helpers: for every shape of 1..3 "
+                "type lists with lengths 1..3 and a product of <= 6 elements, for both front-end "
+                "branches (definition template with / without a `method` member), EVERY subset of "
+                "combinations marked not_defined is a distinct instantiation (method + definition "
+                "template) in a generated program; large products on both sides of the 512 split "
+                "(511, 512, 513, 529 = 23x23, 1025 in thorough; 529 in quick) under patterns "
+                "{none, first, last, middle, checkerboard, one row, one column, all}. Checked at "
+                "run time in each program: the multiset of parameter-class tuples found in the "
+                "method's definition catalog equals the defined combinations (+ the catch-all); "
+                "after update every combination reaches its own definition (or the catch-all when "
+                "not defined); product enumerates row-major; apply_product agrees. Non-trivial = "
+                "neither no nor all combinations defined.")
+    res.assumptions = ["arity <= 3 type lists (a fourth list only multiplies the product)",
+                       "programs are compiled with g++ -O0; a program of the family that does not compile is a harness error (compilability is not the property)"]
+    variants = []
+    for (a, b, c_) in _small_shapes():
+        for hm in (0, 1):
+            variants.append(("ud_%d_%d_%d_%d" % (a, b, c_, hm),
+                             ["UD_L1=%d" % a, "UD_L2=%d" % b, "UD_L3=%d" % c_, "HASMETHOD=%d" % hm],
+                             "lists %dx%dx%d method_member=%d all subsets" % (a, b, c_, hm)))
+    large = [(23, 23)] if tier == "quick" else [(7, 73), (16, 32), (19, 27), (23, 23), (25, 41)]
+    patterns = [0, 7, 4] if tier == "quick" else [0, 1, 2, 3, 4, 5, 6, 7]
+    for (a, b) in large:
+        for pat in patterns:
+            variants.append(("ud_big_%d_%d_p%d" % (a, b, pat),
+                             ["UD_L1=%d" % a, "UD_L2=%d" % b, "UD_L3=0", "HASMETHOD=0", "MASKMODE=1",
+                              "ONLY_PATTERN=%d" % pat],
+                             "lists %dx%d (%d combinations) pattern %d" % (a, b, a * b, pat)))
+    cands, samples, sums = _run_family(res, "usedefs.cpp", variants)
+    for s in sums:
+        res.states += s["cases"]
+        res.traces += s["cases"]
+        res.nontrivial += s["nontrivial"]
+        res.transitions += s["calls"] + s["facts"]
+    res.extra["programs"] = len(variants)
+    res.bounds.append({"run": "usedefs family " + tier, "complete": len(sums) == len(variants),
+                       "counters": {"binaries": len(variants), "instantiated_programs": res.states}})
+    res.samples = samples[:8]
+    _triage_family(res, "usedefs.cpp", cands)
+
+
 def replay(prop, cand, path):
+    if cand.get("engine") == "E5":
+        name, defs = cand["variant"]
+        binary, err = _compile_variant(cand["src"], name, defs)
+        if not binary:
+            print(err, file=sys.stderr)
+            if cand.get("kind") == "does_not_compile":
+                print("VIOLATION property=%s replay=%s" % (prop, path))
+                return 1
+            return 2
+        rc, so, se, dt = small.run(binary, [], timeout=600)
+        sys.stdout.write(so[-3000:])
+        again = [x for x in small.parse(so)[0] if x["case"] == cand["case"]]
+        if again or rc != 0:
+            print("VIOLATION property=%s replay=%s" % (prop, path))
+            return 1
+        print("not reproduced: property holds on this program")
+        return 0
     if cand.get("engine") == "E4":
         res = C.Result(prop, "quick")
         b = _e4_build(res)
